@@ -95,6 +95,7 @@ class Program:
     def _load(self):
         if not os.path.isdir(self.pkg):
             raise AnalysisError(f"package directory not found: {self.pkg}")
+        parsed = []
         for dirpath, dirnames, filenames in os.walk(self.pkg):
             dirnames[:] = sorted(d for d in dirnames if d != "__pycache__")
             for fn in sorted(filenames):
@@ -108,9 +109,14 @@ class Program:
                     tree = ast.parse(src, filename=path)
                 except SyntaxError as e:
                     raise AnalysisError(f"syntax error in {rel}: {e}")
-                mod = Mod(rel, path, src, tree)
-                self.mods[rel] = mod
-                self._index(mod)
+                parsed.append((rel, path, src, tree))
+        # functions the rules do not know (not in inventory.json) are inlined back into their callers
+        from .inline import normalise
+        self.inline_report = normalise({rel: tree for rel, _, _, tree in parsed})
+        for rel, path, src, tree in parsed:
+            mod = Mod(rel, path, src, tree)
+            self.mods[rel] = mod
+            self._index(mod)
         if len(self.mods) < 60:
             raise AnalysisError(f"only {len(self.mods)} modules found under {self.pkg} (floor 60)")
 
